@@ -6,3 +6,4 @@ import OQuPyVerif.Model.Proto
 import OQuPyVerif.Model.ProtoQI
 import OQuPyVerif.Props.C06
 import OQuPyVerif.Props.C01
+import OQuPyVerif.Props.C18
